@@ -374,6 +374,20 @@ Arguments ST {W}.
 Arguments s_w {W}. Arguments s_errno {W}. Arguments s_trace {W}.
 
 (* ------------------------------------------------------------------ *)
+(* derived topologies.  hwloc__topology_dup memcpy()s binding_hooks and copies state; hwloc_shmem_topology_adopt
+   memcpy()s the whole struct (state included) and re-runs hwloc_set_binding_hooks on that state: either way
+   the part of the topology bind.c looks at - sets, NUMA level, the IS_THISSYSTEM bit the hooks were selected
+   with - is the source's, field by field. *)
+Definition topo_dup (T : topo) : topo :=
+  TP (t_cpuset T) (t_ccpuset T) (t_nodeset T) (t_cnodeset T) (t_nodes T) (t_thissystem T).
+(* what a duplication that RE-SELECTS the hooks on a freshly initialised state would give
+   (hwloc__topology_init sets IS_THISSYSTEM): always the native hooks *)
+Definition topo_dup_reselecting (T : topo) : topo :=
+  TP (t_cpuset T) (t_ccpuset T) (t_nodeset T) (t_cnodeset T) (t_nodes T) true.
+Inductive derivation := D_dup | D_adopt.
+Definition derive (T : topo) (d : derivation) : topo := match d with D_dup => topo_dup T | D_adopt => topo_dup T end.
+
+(* ------------------------------------------------------------------ *)
 (* views of an API call used by the property statements                  *)
 Definition api_flags (a : apicall) : N :=
   match a with
